@@ -1,6 +1,8 @@
 import Ufo2ftModel.Model.C13
 import Ufo2ftModel.Spec.Render
 import Ufo2ftModel.Spec.C03
+import Ufo2ftModel.Model.C13VF
+import Ufo2ftModel.Spec.Good
 /-! C13 declaratively: what must be true of (source glyph set, skip list, reduced glyph set). -/
 namespace Ufo2ft.C13
 open Ufo2ft
@@ -38,5 +40,54 @@ def vfWrong (skip : List String) (orderFull orderSkip : List String)
     (samples : List (String × String × Int × Int × List (List (Int × Int)) × List (List (Int × Int)))) : List String :=
   (if holdsOrder skip orderFull orderSkip then [] else ["<order>"]) ++
   (samples.filter (fun (_, _, advF, advS, dF, dS) => !(advF == advS && closeDrawing dF dS))).map (fun (loc, n, _) => loc ++ ":" ++ n)
+
+
+/-! ### a decidable certificate for the hypotheses of `C13_vf_render` -/
+
+/-- the family is well-formed in the sense of `C13_vf_render` (`Props/C13VFCert.lean`: a checked certificate implies
+    `WFSkip I ms (rankOf cert)`): one location per source, no location twice, default source at 0 holding every glyph; same-named
+    glyphs alike (`sh`: point types, component bases and 2×2 parts, anchor names); `cert` ranks strictly decreasing along
+    components and bounded by the number of names; non-singular components; closed contours; every glyph has sources on both
+    sides of (or at) every source location; no glyph name twice in a glyph set -/
+def famCert (I : C09.Inst) (ms : C09.Masters) (cert : List (String × Nat)) : Bool :=
+  let d := ms.getD I.defaultIdx []
+  I.locs.length == ms.length && decide I.locs.Nodup &&
+  decide (I.defaultIdx < ms.length) && I.locs[I.defaultIdx]? == some 0 &&
+  ms.all (fun m => m.all (fun e => (d.get? e.1).isSome)) &&
+  ms.all (fun m1 => ms.all (fun m2 => m1.all (fun e => match m2.get? e.1 with
+    | none => true
+    | some g2 => sh e.2 == sh g2))) &&
+  ms.all (fun m => m.all (fun e =>
+    e.2.comps.all (fun k => k.t.det != 0 && decide (rankOf cert k.base < rankOf cert e.1)) &&
+    e.2.contours.all (fun c => c.all (fun p => p.seg != some Seg.move)))) &&
+  d.all (fun e => I.locs.all (fun l =>
+    (C09.sourceLocs I ms e.1).any (fun l' => decide (l' ≤ l)) && (C09.sourceLocs I ms e.1).any (fun l' => decide (l ≤ l')))) &&
+  ms.all (fun m => decide (m.map (·.1)).Nodup) &&
+  cert.all (fun c => decide (c.2 ≤ (C09.allNames ms).length))
+
+/-- `t` lies between the sources -/
+def inHull (I : C09.Inst) (t : Q) : Bool := I.locs.any (fun l => decide (l ≤ t)) && I.locs.any (fun l => decide (t ≤ l))
+
+/-! ### the drawing of the model's variable font, in the canonical form the harness observes -/
+
+def leP (a b : Int × Int) : Bool := a.1 < b.1 || (a.1 == b.1 && a.2 ≤ b.2)
+
+/-- Python's order on lists of points -/
+def leL : List (Int × Int) → List (Int × Int) → Bool
+  | [], _ => true
+  | _ :: _, [] => false
+  | a :: as, b :: bs => if a == b then leL as bs else leP a b
+
+/-- contours as sorted sets of (rounded) points, the contours sorted: `sorted(sorted(set(c)) for c in contours)` -/
+def canonDrawing (cs : List Contour) : List (List (Int × Int)) :=
+  ((cs.filter (fun c => !c.isEmpty)).map (fun c =>
+    ((List.map (fun (p : Pt) => (otRound p.x, otRound p.y)) c).mergeSort leP).eraseDups)).mergeSort leL
+
+/-- what the model's variable fonts (without and with the skip list) show at the sampled locations:
+    (location, glyph, advance without / with, drawing without / with) for every non-skipped glyph of the family -/
+def vfModel (skip : List String) (I : C09.Inst) (ms ms' : C09.Masters) (locs : List Q) :
+    List (Q × String × Option Q × Option Q × List (List (Int × Int)) × List (List (Int × Int))) :=
+  locs.flatMap (fun t => ((C09.allNames ms).filter (fun n => !skip.contains n)).map (fun n =>
+    (t, n, advanceAt I ms t n, advanceAt I ms' t n, canonDrawing (renderAt I ms t n), canonDrawing (renderAt I ms' t n))))
 
 end Ufo2ft.C13
